@@ -142,6 +142,14 @@ def h_times_in_units(u: int, g: int, opt: int, tu: int) -> bool:
     post: _
     """
     return step_count_in_units(u, g, opt, tu)
+
+
+def h_wrapper_no_sample(opt: int, g: int, pol: int, first: int) -> bool:
+    """
+    pre: 0 <= opt <= 2 and 0 <= g <= 1 and 0 <= pol <= 3 and 0 <= first <= 1
+    post: _
+    """
+    return wrapper_records_nothing_itself(opt, g, pol, first)
 '''
     mod = pysym.write_module("hgen_C09", text)
     pysym.run_auto(rec, mod, [{"fn": "h_default_tmax_follows", "what": "t_max left at its default is the last requested time of the script AS IT IS when the engine is set up (sample times replaced by a longer / shorter list or edited in place); "
@@ -149,4 +157,7 @@ def h_times_in_units(u: int, g: int, opt: int, tu: int) -> bool:
                                "viol": "the default t_max is a stale copy of an earlier last sample time"},
                               {"fn": "h_times_in_units", "what": "requested sample times, sampling interval, t_max and time step written with their own time unit (ms, min, h, s; array with units / list of quantities) under any of the 11 script systems reach the "
                                "native engine on ONE common scale (requested time / time step, interval / time step, t_max / time step are the physical ratios): grid and graph set-up routines, 3 engine kinds",
-                               "sig": "c09-times-units", "structure": "script", "viol": "requested times (or interval / t_max) reach the engine on another scale than the time step: records are taken at other physical times than those requested"}])
+                               "sig": "c09-times-units", "structure": "script", "viol": "requested times (or interval / t_max) reach the engine on another scale than the time step: records are taken at other physical times than those requested"},
+                              {"fn": "h_wrapper_no_sample", "what": "what is recorded is decided by the engine's sampling policy alone (proved on the engine AST): the wrapper makes no record of its own - set-up is ONE initialize call, "
+                               "iterate / iterate_n / run make no sample call, a user sample() makes exactly one (3 engines x grid/graph x 4 policies x requested list starting at 0 / after 0)",
+                               "sig": "c09-wrapper-sample", "structure": "LibRDEngine", "viol": "the wrapper asks the engine for a record on its own (e.g. at set-up): the trajectory holds a record the sampling policy does not define"}])
